@@ -284,6 +284,10 @@ func gen(t *rapid.T) Case {
 		cfg.AvoidUnwalked = true
 	}
 	lay := fsgen.Generate(t, cfg)
+	if rapid.IntRange(0, 2).Draw(t, "graph") == 0 {
+		// a small dense graph of schema components: chains, cycles and every resolution order
+		lay = fsgen.GenerateGraph(t, cfg.Absolute)
+	}
 	c := Case{Layout: lay}
 	c.Entry = rapid.SampledFrom([]string{"uri", "datawithpath"}).Draw(t, "entry")
 	if cfg.AvoidUnwalked && os.Getenv("C02_DEBUG") == "" && rapid.IntRange(0, 5).Draw(t, "break") == 0 {
